@@ -1,15 +1,31 @@
 (* C05 — property theorems. This file contains nothing but the statements, each closed by
    `exact <lemma>` from Proofs*.v, with Print Assumptions beneath, and the non-vacuity examples. *)
 From Coq Require Import List Permutation NArith.
-From C05 Require Import Model ProofsOrder ProofsNorm ProofsSearch Proofs.
+From C05 Require Import Model ProofsOrder ProofsNorm ProofsSearch Proofs ProofsProxy ProofsSums.
 Import ListNotations.
 
-(* However the documents fs are split over fractions (arbitrary overlaps, duplicates allowed),
-   whichever fractions the range filter keeps (as long as a dropped fraction has no hit), in
-   whatever order fractions with equal borders come out of the sort, for every chunk size
-   (FractionsPerIteration, 0 = all), both orders and every limit: SearchDocs terminates (never
-   out of fuel) and returns exactly the first `limit` IDs of the one ordered duplicate-free list
-   of all hits - the answer of ONE fraction holding everything. *)
+(* lem:topk_union — the top k of a union of ID multisets (duplicates identified, either order)
+   is the top k of the union of the parts' own top k. *)
+Theorem C05_topk_union : forall o k x bs,
+  topk o k (x ++ concat (map (topk o k) bs)) = topk o k (x ++ concat bs).
+Proof. exact topk_union. Qed.
+Print Assumptions C05_topk_union.
+
+(* lem:ensured_final — with the remaining fractions sorted by their border (To descending /
+   From ascending), every ID that calcEnsuredIDsCount counts stands strictly before every hit
+   of every remaining fraction: it can never be displaced. *)
+Theorem C05_ensured_final : forall o p f r S z g x,
+  KS o (f :: r) -> In z (firstn (ensured o S (f :: r)) S) -> In g (f :: r) ->
+  In x (hit_ids p g) -> before o z x = true.
+Proof. exact ensured_final. Qed.
+Print Assumptions C05_ensured_final.
+
+(* thm:C05_topk_partition — however the documents fs are split over fractions (arbitrary
+   overlaps, duplicates allowed), whichever fractions the range filter keeps (as long as a
+   dropped fraction has no hit), in whatever order fractions with equal borders come out of the
+   sort, for every chunk size (FractionsPerIteration, 0 = all), both orders and every limit:
+   SearchDocs terminates (never out of fuel) and returns exactly the first `limit` IDs of the one
+   ordered duplicate-free list of all hits - the answer of ONE fraction holding everything. *)
 Theorem C05_topk_partition :
   forall (p : params) (fs : list frac) (keep : frac -> bool) (prepared : list frac) (fpi : nat),
     (forall f, In f fs -> keep f = false -> hit_ids p f = []) ->
@@ -27,10 +43,95 @@ Theorem C05_topk_partition_prepare : forall p fs fpi,
 Proof. exact topk_partition_prepare. Qed.
 Print Assumptions C05_topk_partition_prepare.
 
-(* Pages tile the one global list: consecutive pages concatenate to the bigger page, and a page
-   is the contiguous segment [offset, offset+size) of the list - no gaps, no repeats. *)
+(* Total, histogram, count aggregation and NotExists equal those of the one fraction holding
+   everything when no hit ID is stored twice (for every request, scanning or not). *)
+Theorem C05_sums_partition :
+  forall (p : params) (fs : list frac) (keep : frac -> bool) (prepared : list frac) (fpi : nat) (r : qpr),
+    (forall f, In f fs -> keep f = false -> hit_ids p f = []) ->
+    Permutation prepared (filter keep fs) ->
+    KS (p_order p) prepared ->
+    NoDup (all_hit_ids p fs) ->
+    search_docs p fpi prepared = Ok r ->
+    sums r = sums (frac_search p (p_limit p) (concat fs)).
+Proof. exact sums_partition. Qed.
+Print Assumptions C05_sums_partition.
+
+(* thm:C05_shards_replicas — s shards x r replicas: every shard is answered by ONE of its replicas
+   (any of them, each with its own fraction layout, searched in any valid order); if the replicas of
+   a shard hold the same hits, the page returned by the proxy is the segment [offset, offset+size)
+   of the one global list of the hits of all shards (pick = any choice of one replica per shard),
+   and an ID present on several shards, replicas or fractions is listed once. *)
+Theorem C05_shards_replicas :
+  forall p off size fpi (shards : list (list (list frac))) (answers pick : list (list frac)),
+    Forall2 (fun reps prepared => exists layout, In layout reps /\ valid_prep p layout prepared)
+            shards answers ->
+    Forall (same_hits p) shards ->
+    Forall2 (fun reps l => In l reps) shards pick ->
+    exists r, proxy_search p off size fpi answers = Ok r
+      /\ q_ids r = firstn size (skipn off (global_order p (concat pick)))
+      /\ NoDup (q_ids r).
+Proof. exact shards_replicas. Qed.
+Print Assumptions C05_shards_replicas.
+
+(* thm:C05_paging_tiles — pages tile the one global list: consecutive pages concatenate to the
+   bigger page, and a page is the contiguous segment [offset, offset+size) of the list - no gaps,
+   no repeats. *)
 Theorem C05_paging_tiles : forall G off s s',
   page G off s ++ page G (off + s) s' = page G off (s + s')
   /\ G = firstn off G ++ page G off s ++ skipn (off + s) G.
 Proof. exact paging_tiles. Qed.
 Print Assumptions C05_paging_tiles.
+
+(* ------------------------------------------------------------------ non-vacuity *)
+Open Scope N_scope.
+Definition ex_p : params := mkP 0 5000 2%nat Desc true 2 true.
+Definition d1 := mkDoc (1003, 1) true 1.
+Definition d2 := mkDoc (1001, 0) true 0.
+Definition d3 := mkDoc (1002, 5) true 2.
+Definition d4 := mkDoc (1003, 0) true 1.
+Definition d5 := mkDoc (1000, 7) false 3.
+(* two fractions with overlapping ranges and an equal newest border *)
+Definition ex_fs : list frac := [[d1; d2]; [d3; d4; d5]].
+
+(* the hypotheses of C05_topk_partition / C05_sums_partition are met and the run is not trivial:
+   limit 2 cuts 4 hits, the loop runs twice, the second fraction is searched with a smaller limit *)
+Example C05_nonvacuous_partition :
+  KS (p_order ex_p) (prepare ex_p ex_fs)
+  /\ Permutation (prepare ex_p ex_fs) (filter (intersecting ex_p) ex_fs)
+  /\ NoDup (all_hit_ids ex_p ex_fs)
+  /\ search_docs ex_p 1 (prepare ex_p ex_fs)
+     = Ok (mkQ [(1003, 1); (1003, 0)] 4 [(1000, 1); (1002, 3)] [(0, 1); (1, 2); (2, 1)] 1).
+Proof.
+  split; [apply prepare_KS|]. split; [apply prepare_perm|]. split.
+  - vm_compute. repeat constructor; simpl; intuition discriminate.
+  - vm_compute. reflexivity.
+Qed.
+
+(* the hypotheses of C05_shards_replicas: 2 shards, the first with two replicas that split the same
+   documents differently (the second replica answers), d1 is also stored on the second shard *)
+Example C05_nonvacuous_shards :
+  let shards := [[ [[d1; d2]; [d3]] ; [[d3; d1]; [d2]] ]; [ [[d4; d1]; [d5]] ]] in
+  let answers := [prepare ex_p [[d3; d1]; [d2]]; prepare ex_p [[d4; d1]; [d5]]] in
+  let pick := [ [[d1; d2]; [d3]]; [[d4; d1]; [d5]] ] in
+  Forall2 (fun reps prepared => exists layout, In layout reps /\ valid_prep ex_p layout prepared) shards answers
+  /\ Forall (same_hits ex_p) shards
+  /\ Forall2 (fun reps l => In l reps) shards pick
+  /\ proxy_search ex_p 1 2 1 answers
+     = Ok (mkQ [(1003, 0); (1002, 5)] 4 [(1000, 1); (1002, 3)] [(0, 1); (1, 3); (2, 1)] 1).
+Proof.
+  intros shards answers pick.
+  assert (V : forall layout, valid_prep ex_p layout (prepare ex_p layout)).
+  { intros layout. exists (intersecting ex_p). split; [|split].
+    - intros f _ H. apply not_intersecting_no_hit; auto.
+    - apply prepare_perm.
+    - apply prepare_KS. }
+  split; [|split; [|split]].
+  - constructor; [|constructor; [|constructor]].
+    + exists [[d3; d1]; [d2]]. split; [simpl; auto | apply V].
+    + exists [[d4; d1]; [d5]]. split; [simpl; auto | apply V].
+  - constructor; [|constructor; [|constructor]].
+    + intros l1 l2 [<-|[<-|[]]] [<-|[<-|[]]] x; vm_compute; tauto.
+    + intros l1 l2 [<-|[]] [<-|[]] x; tauto.
+  - constructor; [simpl; auto | constructor; [simpl; auto | constructor]].
+  - vm_compute. reflexivity.
+Qed.
